@@ -89,7 +89,8 @@ class FixedType:
             if v.lo is not None and v.hi is not None and self.minval <= v.lo and v.hi <= self.maxval:
                 return v
             h = 1 << (w - 1)
-            return ir.sub(ir.mod(ir.add(v, h), 1 << w), h)
+            m = ir.mod(v, 1 << w)
+            return ir.ite(ir.ge(m, h), ir.sub(m, 1 << w), m)
         return ir.mod(v, 1 << w)
 
 
